@@ -63,7 +63,14 @@ def payload_gen(rng, now):
 def view_of(decoded):
     """the JSON view the model's `jsonParse` parameter returns for these bytes (None: not JSON)"""
     try:
-        o = json.loads(decoded.decode('utf-8'), parse_float=lambda s: Fraction(s), parse_constant=lambda s: (_ for _ in ()).throw(ValueError()))
+        def num(s):          # a JSON number is a double or a 64-bit integer for the parser behind the fang: beyond the range of a double it is not a number ("number out of range")
+            f = Fraction(s)
+            if abs(f) >= Fraction(2) ** 1024: raise ValueError('number out of range')
+            return f
+        def integer(s):
+            if abs(int(s)) >= 2 ** 1024: raise ValueError('number out of range')
+            return int(s)
+        o = json.loads(decoded.decode('utf-8'), parse_float=num, parse_int=integer, parse_constant=lambda s: (_ for _ in ()).throw(ValueError()))
     except (ValueError, UnicodeDecodeError, RecursionError):
         return None
     def s(k):
